@@ -13,10 +13,9 @@ Scope decisions ("Corrections": what the statement does and does not demand)
  * "Every finite IEEE-754 float": only finite bit patterns are generated; reference-accepted mutated/fuzzed items
    that contain an infinity or NaN are counted as excluded (out-of-scope:nonfinite-float), not judged.
  * "Every format code the receiving item definition allows": a receiver model `allows(recv, item)` written from the
-   definitions decides scope.  ANYVALUE's own type list omits JIS8, and Dynamic.decode hands every nested list to
-   Array(ANYVALUE); therefore a J item is in scope at the top level of Dynamic([]) ("empty means all types"), in
-   typed receivers (JIS8, Array(JIS8), records, Dynamic items listing JIS8) but NOT inside a list received through
-   Dynamic/ANYVALUE (the nested definition is ANYVALUE).  Excluded by construction, counted for mutated bytes.
+   definitions decides scope.  ANYVALUE's type list originally omitted JIS8 while Dynamic.decode hands every nested
+   list to Array(ANYVALUE), so a J item inside a list received through an unrestricted Dynamic was rejected; that was
+   repaired (fix b2bc7e2: ANYVALUE allows JIS8) and J items are now in scope everywhere the definition allows them.
  * count limits: leaf receivers are used with count -1 or a count >= the number of elements (count 0 is avoided: the
    text/binary classes read it as "unlimited", the numeric ones as "empty only").  Records need exactly as many
    elements as fields.  Arrays are used without count (Array.decode never looks at it).
@@ -85,7 +84,7 @@ ASSUMPTIONS = [
 BUDGET_S = {"quick": 110, "thorough": 1200}
 GRACE_S = 180
 
-NOJ = [f for f in gi.SCALARS if f != "J"]
+NOJ = list(gi.SCALARS)  # historical name: J is allowed under ANYVALUE since fix b2bc7e2
 FORMAT_BYTES = [(c << 2) | n for c in sorted(e5.NAMES) for n in (1, 1, 2, 3, 0)]
 
 DYN_ALL = {"k": "dyn", "types": [], "direct": True}
@@ -100,9 +99,7 @@ ARRAY_ANY = {"k": "array", "of": {"k": "any"}}
 
 def _any_ok(it):
     f, p = it
-    if f == "J":
-        return False
-    return f != "L" or all(_any_ok(s) for s in p)
+    return f != "L" or all(_any_ok(s) for s in p)  # ANYVALUE lists every type incl. JIS8 (since fix b2bc7e2)
 
 
 def allows(recv, it):
@@ -740,12 +737,12 @@ def plan(tier, seed):
     n_gen, per = (16, 700) if quick else (16, 31250)  # examples; each gives 2 cases (see variants)
     for i in range(n_gen):
         tasks.append(("gen", {"shard": i, "n": per}))
-    if not quick:
-        for i in range(16):
-            tasks.append(("fuzz", {"shard": i, "runs": 400000}))
     n_mut, per_m = (8, 1500) if quick else (16, 25000)
     for i in range(n_mut):
         tasks.append(("mut", {"shard": i, "n": per_m}))
+    if not quick:  # optional coverage-guided shards last: they are the part that may be cut by the budget
+        for i in range(16):
+            tasks.append(("fuzz", {"shard": i, "runs": 400000}))
     return tasks
 
 
@@ -784,7 +781,7 @@ def _typed_receivers(f):
         ({"k": "array", "of": {"k": "leaf", "f": f, "count": -1, "raw": True}}, 1),
         ({"k": "array", "of": {"k": "dyn", "types": [other, f]}}, 1),
         ({"k": "list", "fields": [{"k": "leaf", "f": other, "count": -1}, {"k": "leaf", "f": f, "count": -1}]}, 2),
-    ] + ([(ANY, 0), (ARRAY_ANY, 1), ({"k": "dyn", "types": ["L", f]}, 1)] if f != "J" else [])
+    ] + [(ANY, 0), (ARRAY_ANY, 1), ({"k": "dyn", "types": ["L", f]}, 1)]
 
 
 def _wrap(item, how):
@@ -864,7 +861,7 @@ def run_task(name, kw, ctx):
                 for nlb in range(e5.min_nlb(n * w), 4):
                     recvs = [{"k": "leaf", "f": f, "count": -1, "raw": True}, DYN_ALL]
                     if n * w < 1000 or ctx.tier != "quick":
-                        recvs += [{"k": "leaf", "f": f, "count": max(n, 1)}] + ([ANY] if f != "J" else [])
+                        recvs += [{"k": "leaf", "f": f, "count": max(n, 1)}] + [ANY]
                     for recv in recvs:
                         if ctx.out_of_time():
                             return
